@@ -367,7 +367,8 @@ def Bound (s : State) : Prop :=
   (∀ sym t, AMap.get? s.tokens sym = some t → t.contract ≠ 0 → AMap.get? s.contracts t.contract = some sym) ∧
   (∀ c sym, AMap.get? s.contracts c = some sym → ∃ t, AMap.get? s.tokens sym = some t ∧ t.contract = c)
 
-/-- the conversion operations (both directions, the hook, and the contract's fault switch) -/
+/-- the conversion operations (both directions, the hook call, whole EVM transactions with several
+logs, and the contract's fault switch) -/
 def isConversion : Op → Bool
   | .swapToErc20 .. => true
   | .swapFromErc20 .. => true
@@ -500,6 +501,37 @@ theorem conversion_step (s s' : State) (op : Op) (hwf : WF s) (hb : Bound s) (hs
   | swapFee _ _ _ _ => cases hop
   | deploy _ _ _ _ _ => cases hop
   | updateParams _ _ => cases hop
+
+/-- **C10(7a)** the target of an EVM transaction plays no role in the hook: the token credited by a
+`SwapToNative` log is decided by the contract that **emitted** the log -/
+theorem evm_tx_target_irrelevant (s : State) (t1 t2 : Emitter) (logs : List SwapLog) :
+    step s (.evmTx t1 logs) = step s (.evmTx t2 logs) := rfl
+
+/-- a log emitted by an address that is not a contract of ours (so not bound to any token) moves nothing -/
+theorem log_of_unbound_emitter_ignored (s : State) (n : Nat) (src rcv : String) (amount : Int) :
+    stepLog s { emitter := .u n, src := src, rcv := rcv, amount := amount } = .ok s := rfl
+
+/-- a log emitted by the contract bound to token `t`: the caller's ERC20 balance of *that* contract
+is burned and exactly `amount` of `t`'s min unit is minted to the receiver named in the log -/
+theorem log_of_bound_emitter_exact (s s' : State) (c : Nat) (src rcv : String) (amount : Int) (sym : String) (t : Token)
+    (hc : AMap.get? s.contracts c = some sym) (ht : AMap.get? s.tokens sym = some t)
+    (hs : stepLog s { emitter := .k c, src := src, rcv := rcv, amount := amount } = .ok s') :
+    0 < amount ∧ evmBal s' c src + amount.toNat = evmBal s c src ∧
+      balOf s' rcv t.minUnit = balOf s rcv t.minUnit + amount.toNat ∧
+      supplyOf s' t.minUnit + evmTotal s' c = supplyOf s t.minUnit + evmTotal s c := by
+  obtain ⟨h1, _, h3, h4, _, h6, _⟩ := hook_swap_exact s s' src c rcv amount sym t hc ht hs
+  exact ⟨h1, h3, h4, h6⟩
+
+/-- **C10(7b)** an accepted EVM transaction, whatever its target and however many logs of bound,
+other bound, or unbound emitters its receipt carries, leaves native + ERC20 supply of every bound
+token unchanged and touches nothing but the two ledgers -/
+theorem evm_tx_conserves (s s' : State) (target : Emitter) (logs : List SwapLog) (hwf : WF s) (hb : Bound s)
+    (hsound : Sound s.bank) (hs : step s (.evmTx target logs) = .ok s') :
+    Frame s s' ∧ Sound s'.bank ∧
+    ∀ sym t, AMap.get? s.tokens sym = some t → t.contract ≠ 0 →
+      combined s' t.minUnit t.contract = combined s t.minUnit t.contract :=
+  ⟨logs_frame (evmTx_ok hs), sound_step s s' _ hsound hs,
+   (conversion_step s s' _ hwf hb hsound rfl hs).2.2.2⟩
 
 /-- **C10(7)** over every sequence mixing conversions in both directions, hook calls, contract
 faults and failed attempts: for every token bound to a contract, native supply + ERC20 supply
